@@ -2,9 +2,10 @@
    Only the property theorems, each closed by [exact] of a lemma and followed by Print Assumptions.
    The models mirror lib/allocators after the repairs 484ce8f (arena/stack overflow test, arena
    alloc(0)), 961d315 (pool deallocall), 942c78c (heap size overflow), b8d094a (heap realloc-shrink
-   coalescing): every statement below is the full-strength one, over ALL histories with sizes
-   anywhere in 0 .. 2^64-1; no [_partial]/[_refuted] pair is left.  The only hypotheses are the
-   [*cfg_ok] facts about the buffer (a real object that does not wrap the address space). *)
+   coalescing), 942989e (span count overflow), 532034f (aligned request overflow), 9ef0717 (heap
+   deallocall clears the used marks): the statements are the full-strength ones, over ALL histories
+   with sizes anywhere in 0 .. 2^64-1.  The only hypotheses are the [*cfg_ok] facts about the buffer
+   (a real object that does not wrap the address space). *)
 From Coq Require Import ZArith List Bool Permutation.
 From Base Require Import LuaInt.
 From C11 Require Import Gen Model Heap HeapA Spec SpecHeap ProofsArena ProofsStack ProofsPool ProofsHeap ProofsHeapNaf ProofsHeapBytes RefineHeap RefineTop Iface ProofsIface Aligned ProofsAligned.
@@ -141,9 +142,6 @@ Print Assumptions C11_heap_mem_safe.
 (* "reports a double free instead of corrupting itself", full strength on the memory-level model:
    dealloc of ANY non-nil pointer that is not a live block panics.  False of the unchanged code:
    deallocall leaves the NODE_COOKIE marks of the old chunks in the buffer (known finding) *)
-Theorem C11_heap_mem_invalid_free_reported_refuted : ~ heap_mem_invalid_free_reported_full.
-Proof. exact heap_mem_invalid_free_reported_refuted_proof. Qed.
-Print Assumptions C11_heap_mem_invalid_free_reported_refuted.
 
 (* what does hold: a pointer to the header of a FREE chunk of the current state - a block that has
    just been freed and was not absorbed by its predecessor, a block of a coalesced region's start -
@@ -210,17 +208,22 @@ Theorem C11_iface_realloc0 : forall S (p_realloc : S -> Z -> Z -> Z -> option (S
 Proof. exact realloc0_spec. Qed.
 Print Assumptions C11_iface_realloc0.
 
+(* spanalloc: the element count is tested against usize_max / #T before the multiplication
+   (repair 942989e), so a non-empty span is exactly the block alloc(count * #T) returned *)
 Theorem C11_iface_spanalloc : forall S (p_alloc : S -> Z -> option (S * Z)) s t count s' sp,
-  i_spanalloc S p_alloc s t count = Some (s', sp) -> fst sp <> 0 ->
-  snd sp = count /\ p_alloc s (w64 (count * t)) = Some (s', fst sp) /\
-  (0 <= count * t < two64 -> span_extent t sp = mkblk (fst sp) (w64 (count * t))).
+  i_spanalloc S p_alloc s t count = Some (s', sp) -> fst sp <> 0 -> 0 <= t ->
+  snd sp = count /\ 0 < count /\ 0 <= count * t < two64 /\
+  p_alloc s (count * t) = Some (s', fst sp) /\ span_extent t sp = mkblk (fst sp) (count * t).
 Proof. exact spanalloc_spec. Qed.
 Print Assumptions C11_iface_spanalloc.
 
+(* spanrealloc of a non-empty span: a count whose byte size would overflow leaves allocator and span
+   unchanged; otherwise the result is the old span (failure) or (realloc's pointer, count) *)
 Theorem C11_iface_spanrealloc : forall S (p_alloc : S -> Z -> option (S * Z)) (p_realloc : S -> Z -> Z -> Z -> option (S * Z)) s t sp count s' sp',
   i_spanrealloc S p_alloc p_realloc s t sp count = Some (s', sp') -> snd sp <> 0 ->
+  (s' = s /\ sp' = sp /\ max_span_count t < count) \/
   exists q, p_realloc s (fst sp) (w64 (count * t)) (w64 (snd sp * t)) = Some (s', q) /\
-            (sp' = sp \/ sp' = (q, count)).
+            count <= max_span_count t /\ (sp' = sp \/ sp' = (q, count)).
 Proof. exact spanrealloc_spec. Qed.
 Print Assumptions C11_iface_spanrealloc.
 
@@ -231,20 +234,16 @@ Theorem C11_iface_new : forall S (p_alloc : S -> Z -> option (S * Z)) s t s' p w
 Proof. intros S p_alloc. exact (new_spec S p_alloc (fun _ _ => None) (fun _ _ _ _ => None)). Qed.
 Print Assumptions C11_iface_new.
 
-(* the span variants multiply count * #T without an overflow test (known finding): on the arena,
-   spanalloc(@uint32, 2^62+1) returns a non-empty span that is not inside the buffer ... *)
-Theorem C11_arena_span_in_refuted : ~ arena_span_in_full.
-Proof. exact arena_span_in_refuted_proof. Qed.
-Print Assumptions C11_arena_span_in_refuted.
-
-(* ... and without wrap-around the bytes a span claims are a good block like any other *)
-Theorem C11_arena_span_in_partial : forall c ops s live t count s' sp,
-  acfg_ok c -> Forall aop_usize ops -> arun c (arena_init, []) ops = Some (s, live) ->
-  0 <= count * t < two64 ->
+(* on the arena, after ANY history and for ANY element size and count: the bytes a non-empty span
+   claims (count * #T from its pointer) are a good block like any other - inside the buffer, aligned,
+   disjoint from every live block.  (Refuted before repair 942989e: spanalloc(@uint32, 2^62+1).) *)
+Theorem C11_arena_span_in : forall c ops s live t count s' sp,
+  acfg_ok c -> Forall aop_usize ops -> arun c (arena_init, []) ops = Some (s, live) -> 0 <= t ->
   i_spanalloc astate (arena_alloc c) s t count = Some (s', sp) -> fst sp <> 0 ->
+  snd sp = count /\
   good_blocks (a_base c) (a_size c) (a_align c) (live ++ [span_extent t sp]).
-Proof. exact arena_span_in_partial_proof. Qed.
-Print Assumptions C11_arena_span_in_partial.
+Proof. exact arena_span_in_proof. Qed.
+Print Assumptions C11_arena_span_in.
 
 (* ---------------- AlignedAllocator (aligned.nelua, over the arena) ---------------- *)
 (* the alignment arithmetic: the returned address is a multiple of ALIGN, lies at least a pointer
@@ -261,20 +260,38 @@ Theorem C11_aligned_arith : forall c origp size,
 Proof. exact aligned_arith_proof. Qed.
 Print Assumptions C11_aligned_arith.
 
-(* alloc: aligned, inside the over-allocated block, original pointer recoverable (get_realptr) *)
+(* alloc: aligned, inside the over-allocated block, original pointer recoverable (get_realptr);
+   no bound on the size - the request never wraps (repair 532034f) *)
 Theorem C11_aligned_alloc_spec : forall c s size s' p,
-  pow2 (g_align c) -> PTR_SIZE <= g_align c -> 0 <= size ->
-  size + PTR_SIZE + g_align c <= two64 ->
+  pow2 (g_align c) -> PTR_SIZE <= g_align c -> g_align c + PTR_SIZE <= two64 -> 0 <= size ->
   (forall a' origp, arena_alloc (g_inner c) (g_arena s) (al_request c size) = Some (a', origp) -> origp <> 0 ->
      0 < origp /\ origp + al_request c size <= two64 - 1) ->
   aligned_alloc c s size = Some (s', p) -> p <> 0 ->
+  al_request c size = size + (PTR_SIZE + g_align c - 1) /\
   exists origp, arena_alloc (g_inner c) (g_arena s) (al_request c size) = Some (g_arena s', origp) /\ origp <> 0 /\
     p mod g_align c = 0 /\ origp + PTR_SIZE <= p /\ p + size <= origp + al_request c size /\
     aligned_realptr s' p = origp.
 Proof. exact aligned_alloc_spec_proof. Qed.
 Print Assumptions C11_aligned_alloc_spec.
 
-(* size + #pointer + ALIGN - 1 wraps (known finding): alloc(2^64-8) returns a pointer *)
-Theorem C11_aligned_fits_refuted : ~ aligned_fits_full.
-Proof. exact aligned_fits_refuted_proof. Qed.
-Print Assumptions C11_aligned_fits_refuted.
+(* over the arena, in ANY reachable state of the wrapped arena and for ANY size: a non-nil aligned
+   block is aligned to ALIGN, lies inside a fresh good block of the arena (in the buffer, disjoint
+   from every live block), has room for its header below it, and the header gives the block back.
+   (Refuted before repair 532034f: alloc(2^64-8) requested 63 bytes and returned a pointer.) *)
+Theorem C11_aligned_fits : forall c s live size s' p,
+  acfg_ok (g_inner c) -> pow2 (g_align c) -> PTR_SIZE <= g_align c -> g_align c + PTR_SIZE <= two64 ->
+  ainv (g_inner c) (g_arena s) live -> 0 <= size < two64 ->
+  aligned_alloc c s size = Some (s', p) -> p <> 0 ->
+  exists origp,
+    ainv (g_inner c) (g_arena s') (live ++ [mkblk origp (al_request c size)]) /\
+    good_blocks (a_base (g_inner c)) (a_size (g_inner c)) (a_align (g_inner c)) (live ++ [mkblk origp (al_request c size)]) /\
+    p mod g_align c = 0 /\ origp + PTR_SIZE <= p /\ p + size <= origp + al_request c size /\
+    p + size <= a_base (g_inner c) + a_size (g_inner c) /\
+    aligned_realptr s' p = origp.
+Proof. exact aligned_fits_proof. Qed.
+Print Assumptions C11_aligned_fits.
+
+(* the closed form that was refuted: from the initial state *)
+Theorem C11_aligned_fits_init : aligned_fits_full.
+Proof. exact aligned_fits_full_proof. Qed.
+Print Assumptions C11_aligned_fits_init.
